@@ -190,6 +190,9 @@ def step (fn : Fn Float) (sp : Sp Float) (regs : Array Val) (j : Json) : Except 
   | "mprojectx" =>
     let a ← getMsg regs j "a"
     pure (.msg (a.projectX fn sp (← floats j "xs") (← floats j "lws") (← getNat j "id")))
+  | "residual" =>
+    let fam ← famOf (← getStr j "fam")
+    let r := suffResidual fn sp fam (← getFloat j "m1") (← getFloat j "m2"); pure (.pair r.1 r.2)
   | "invpsilog" => pure (.num (invpsilog fn sp (← getFloat j "x")))
   | "invbeta" => let ab := invBetaSuffstats fn sp (← getFloat j "x") (← getFloat j "y"); pure (.pair ab.1 ab.2)
   | "frommode" =>
